@@ -51,6 +51,8 @@ TSinkDrop == Ev("SinkDrop") /\ Adv /\ SinkDrop /\ UNCHANGED <<rk, sub>>
 TQuiesce  == Ev("Quiesce") /\ Adv /\ Quiesced /\ UNCHANGED <<avars, rk, sub>>
 \* the queue's own metrics are the subject of QueueMetricsTrace.tla (X04); here they are skipped
 TSelfMetrics == Ev("SelfMetrics") /\ Adv /\ UNCHANGED <<avars, rk, sub>>
+\* a tracing subscriber is installed from here on (bq scenario `after_sub`)
+TSubInstalled == Ev("SubInstalled") /\ Adv /\ sub' = 1 /\ UNCHANGED <<avars, rk>>
 TOverflows == Ev("Overflows") /\ Adv /\ OverflowCount(Rec[l].n) /\ UNCHANGED <<avars, rk, sub>>
 \* events the harness logs when something that must happen did not (append took longer
 \* than its budget, a flush never completed, the stream was never closed, a panic):
@@ -72,7 +74,7 @@ SilentPop == /\ l <= N /\ Pop
 TNext_ ==
     \/ TReset \/ TAppStart \/ TAppEnd \/ TNext \/ TReport \/ TFlush \/ TClose
     \/ TFlushReq \/ TFlushDone \/ TDropStart \/ TDropEnd \/ TForget \/ TSinkClone \/ TSinkDrop
-    \/ TQuiesce \/ TOverflows \/ TSelfMetrics
+    \/ TQuiesce \/ TOverflows \/ TSelfMetrics \/ TSubInstalled
     \/ SilentLin \/ SilentPop
 
 TSpec == TInit /\ [][TNext_]_tvars
